@@ -38,6 +38,9 @@ where
     let mut header = [0u8; SNA_HEADER_SIZE];
     asset.read_exact(&mut header)?;
 
+    // Snapshot does not continue the instruction stream of the receiving CPU
+    emulator.cpu.reset_transient_state();
+
     // i-reg
     emulator.cpu.regs.set_i(header[0]);
     // alt-regs
